@@ -748,6 +748,13 @@ def c14(ctx, tr):
         if e['type'] == 'RunTimeout':
             res['skipped'] = 'harness-timeout'
             return res
+        if any(r_.get('fault') == 'crash' for r_ in rounds) and \
+                exc['op'] == 'solve' and \
+                'mpsim-injected-crash' in (e['msg'] or ''):
+            # the back end died and the caller was told so by the very
+            # exception PuLP raised: nothing is presented as a result
+            res['probes']['crash-propagated-to-caller'] = 1
+            return res
         res['violations'].append(
             ('exception-under-fault:' + e['type'], e['site'] or exc['op'],
              {'msg': e['msg'], 'op': exc['op'], 'tb': e['tb']}))
@@ -782,6 +789,11 @@ def c14(ctx, tr):
                       'fault': B.get('fault'), 'status': B.get('status'),
                       'history': [(x['round'], x.get('fault'),
                                    x.get('status')) for x in rounds]}))
+                continue
+            if B.get('fault') == 'crash':
+                # a crash that was absorbed: which status line is shown is
+                # not specified, only that no matching is presented
+                res['probes']['crash-absorbed-without-matching'] = 1
                 continue
             expect_timeout = limit is not None and (
                 total > limit or B.get('status') == 'Not Solved')
